@@ -101,6 +101,16 @@ def device_frames(ctx: Ctx):
         rng = ctx.rng
 
         raised = []
+        emitted = []          # frames in the order the library serialized them (LAN.send is entered synchronously after Command.tobytes)
+
+        def tap(obj):
+            orig = obj._lan.send
+
+            async def send(data, *a, **kw):
+                emitted.append(bytes(data))
+                return await orig(data, *a, **kw)
+            obj._lan.send = send
+        tap(d)
 
         async def op(name, coro):
             try:
@@ -143,6 +153,7 @@ def device_frames(ctx: Ctx):
             import logging
             others = [AC(ip="10.0.0.1", port=6444, device_id=rng.getrandbits(48)) for _ in range(2)]
             for o in others:
+                tap(o)
                 if ver == 3:
                     await op("authenticate", o.authenticate(tok, key))
                 await op("get_capabilities", o.get_capabilities())
@@ -156,7 +167,34 @@ def device_frames(ctx: Ctx):
                     if not lg.handlers:
                         lg.addHandler(logging.NullHandler())
                 try:
-                    await asyncio.gather(op("refresh", d.refresh()), op("refresh", others[0].refresh()), op("refresh", others[1].refresh()))
+                    if rnd % 3 == 0:
+                        await asyncio.gather(op("refresh", d.refresh()), op("refresh", others[0].refresh()), op("refresh", others[1].refresh()))
+                    elif rnd % 3 == 1:
+                        # control and query commands of different objects interleaved: every frame carries ITS OWN type, ids and counts
+                        c10.apply_state(AC, others[0], c10.rand_state(rng))
+                        others[0].vertical_swing_angle = rng.choice(list(AC.SwingAngle))
+                        others[1].rate_select = rng.choice(list(AC.RateSelect))
+                        await asyncio.gather(op("refresh", d.refresh()), op("apply", others[0].apply()), op("apply", others[1].apply()),
+                                             op("toggle_display", d.toggle_display()))
+                    else:
+                        # the capabilities of the object change (another unit behind the same address) while its own refresh is in flight
+                        ac.caps_pages = [caps1, caps2] if (rnd // 3) % 2 else [bytes([0xB5, 2, 0x09, 0x00, 1, 1, 0x16, 0x02, 1, 2])]
+                        # (the appliance answers after 50 ms and the capability query starts 10 ms into the refresh, so that each waiting reader
+                        #  receives its own answer and the property set changes between two commands of the refresh)
+                        def slow(tr, packets):
+                            for q in packets:
+                                loop.call_later(0.05, tr.feed, q)
+                        dev.respond = slow
+
+                        async def later(coro):
+                            await asyncio.sleep(0.01)
+                            await coro
+                        try:
+                            await asyncio.gather(op("refresh", d.refresh()), op("get_capabilities", later(d.get_capabilities())))
+                        finally:
+                            await asyncio.sleep(1)
+                            dev.respond = dev._respond_soon
+                        await op("refresh", d.refresh())
                 finally:
                     if dbg:
                         lg.setLevel(logging.NOTSET)
@@ -165,9 +203,16 @@ def device_frames(ctx: Ctx):
 
         vloop.run(loop, go())
         prev = -1
+        parsed = {}
         for k, entry in zip([r for r in dev.rx if r.get("frame") is not None], ac.log):
-            f = k["frame"]
-            kind, info = entry
+            parsed.setdefault(bytes(k["frame"]), []).append(entry)
+        for f in emitted:
+            if not parsed.get(f):
+                # serialized but never seen (or not understood) by the appliance: judged as an unknown command, the id sequence goes on
+                out.append(dict(kind="unparsed", frame=B(f), prev=prev, exc="none", via=f"device-v{ver}"))
+                prev = f[-3]
+                continue
+            kind, info = parsed[f].pop(0)
             v = dict(kind=kind if kind != "get_caps" else ("get_caps_more" if info == 1 else "get_caps"),
                      frame=B(f), prev=prev, exc="none", via=f"device-v{ver}")
             if kind == "get_props":
